@@ -92,6 +92,26 @@ def run(ctx):
         (t1, p1), (t2, p2) = rng.choice(allp), rng.choice(allp)
         out, q = outcome(lambda: p1.join(p2))
         ops.append(({'op': 'join', 'left': t1, 'right': t2}, out, dumps([S('join'), dump_pred(p1), dump_pred(p2)]), ('join', p1, p2, q)))
+    # join with one of the receiver's own operands (a disjunct, the operand of a negation, a side of an implication / equivalence):
+    # the result must still denote the conjunction
+    related = 0
+    for t1, p1 in preds:
+        e = getattr(p1, 'expression', None)
+        if e is None or not (e.is_operator or e.is_quantifier):
+            continue
+        kids = [k for k in e.children() if getattr(k, 'can_be_bool', False) and k.is_expression]
+        if not kids or (related >= (60 if ctx.quick else 600)):
+            continue
+        k = rng.choice(kids)
+        try:
+            t2 = '{' + str(k) + '}'
+            p2 = prp.parse(t2)
+        except Exception:
+            continue
+        related += 1
+        for a, b, ta, tb in ((p1, p2, t1, t2), (p2, p1, t2, t1)):
+            out, q = outcome(lambda: a.join(b))
+            ops.append(({'op': 'join', 'left': ta, 'right': tb, 'family': 'operand of the other'}, out, dumps([S('join'), dump_pred(a), dump_pred(b)]), ('join', a, b, q)))
     # substitutions
     for txt, x in preds + exprs + vac:
         out, y = outcome(lambda: R.replace_this_with_var(x, 'Z'))
@@ -142,7 +162,7 @@ def run(ctx):
                     violations.append({'input': inp, 'impl': out, 'what': 'p.join(True) is not p', 'signature': 'join-identity'})
                 if ((p1.is_vacuous and not p1.is_true) or (p2.is_vacuous and not p2.is_true)) and not (q.is_vacuous and not q.is_true):
                     violations.append({'input': inp, 'impl': out, 'what': 'joining with the contradiction is not the contradiction', 'signature': 'join-annihilator'})
-                for env in envs():
+                for env in envs() + (envs() + envs() if inp.get('family') else []):
                     jobs.append((env, [dump_pred(p1), dump_pred(p2), dump_pred(q)])); meta.append((inp, 'join'))
             elif kind == 'thisvar':
                 _, x, y = spec
